@@ -7,14 +7,15 @@ CHECKS = {
     'C01': dict(
         text='Bounded symbolic execution of the real upload/copy code path end to end (<= 3 parts; size, threshold, '
              'chunk size, stream offset, body read sizes symbolic) plus unbounded inductive steps for ReadFileChunk and '
-             'the non-seekable read kernel; every input inside the bounds is decided by z3.',
+             'the non-seekable read kernel; legacy uploader with a symbolic completion order of its pool tasks; every '
+             'input inside the bounds is decided by z3.',
         note=_NOTE + '; A3 botocore body protocol; identity-content data', technique=_T),
     'C02': dict(
         text='Bounded symbolic execution of the real download path end to end for all four destination kinds (<= 3 '
              'parts, <= 3 chunks per attempt, <= 2 retryable stream faults at symbolic byte positions, symbolic short '
              'reads) and of GetObjectTask alone.',
-        note=_NOTE + '; identity-content data; legacy ranged download and process-pool facade need real threads/'
-             'processes and are outside', technique=_T + _CO),
+        note=_NOTE + '; identity-content data; legacy ranged download over a lazy pool model (task completion order '
+             'symbolic, no statement-level overlap); process-pool facade needs real processes and is outside', technique=_T + _CO),
     'C03': dict(
         text='Every transfer type/mode with ONE fault at a symbolic index over all environment calls and symbolic phase '
              '(fault enumeration done by the solver, not by a loop): never success after a delivered fault, raised '
@@ -30,11 +31,14 @@ CHECKS = {
         note=_NOTE + '; model threading primitives in /verif/vlib/ns.py', technique=_T + ' over nested schedules' + _CO),
     'C05': dict(
         text='Multipart upload/copy life cycle against a fake multipart table under one symbolic fault (before/after '
-             'effect), incl. the legacy uploader; serial schedule.',
+             'effect), incl. the legacy uploader (pool tasks in symbolic order); cancellation inside a symbolic '
+             'environment call; life cycle and in-flight requests judged at the instant the done event is set as well '
+             'as at quiescence.',
         note=_NOTE + '; abort-vs-in-flight ordering only for serial/nested schedules', technique=_T + _CO),
     'C06': dict(
         text='Crash-point invariant evaluated after every FS operation of an in-memory file system, one symbolic fault, '
-             'destination pre-existing or not; TransferManager and legacy S3Transfer (single + ranged).',
+             'destination pre-existing or not; TransferManager and legacy S3Transfer (single + ranged, the ranged '
+             'path with a symbolic order of its pool tasks); fault pairs; no temporary file at the done instant.',
         note=_NOTE + '; os.rename atomicity trusted; real OS not involved', technique=_T),
     'C07': dict(
         text='Cancellation injected at a symbolic scheduling point (before the k-th task start for the five entry '
@@ -73,7 +77,9 @@ CHECKS = {
         note=_NOTE + '; arbitrary unknown strings are represented by one fresh name', technique=_T),
     'C16': dict(
         text='The real DeferQueue driven with delivery histories exactly as quantified (parts, attempts cut anywhere, '
-             'interleavings) with unbounded symbolic lengths, plus a one-step obligation from an arbitrary queue state.',
+             'interleavings) with unbounded symbolic lengths, plus a one-step obligation from an arbitrary queue state, '
+             'both output-manager paths (queued and immediate writes) and the end-to-end stream download under '
+             'C02\'s fault sequences.',
         note=_NOTE, technique=_T + _CO),
     'C17': dict(
         text='Reference state machine vs the real TransferCoordinator/TransferFuture: one step from every consistent '
